@@ -14,14 +14,20 @@
 
 package auth
 
+import (
+	"sync"
+)
+
 // AuthManager represent an authenticator manager.
 type AuthManager struct {
+	mutex          sync.RWMutex
 	authenticators []Authenticator
 }
 
 // NewAuthManager returns a new authenticator manager.
 func NewAuthManager() *AuthManager {
 	manager := &AuthManager{
+		mutex:          sync.RWMutex{},
 		authenticators: make([]Authenticator, 0),
 	}
 	return manager
@@ -29,20 +35,28 @@ func NewAuthManager() *AuthManager {
 
 // AddAuthenticator adds a new authenticator.
 func (mgr *AuthManager) AddAuthenticator(authenticator Authenticator) {
+	mgr.mutex.Lock()
+	defer mgr.mutex.Unlock()
 	mgr.authenticators = append(mgr.authenticators, authenticator)
 }
 
 // ClearAuthenticators clears all authenticators.
 func (mgr *AuthManager) ClearAuthenticators() {
+	mgr.mutex.Lock()
+	defer mgr.mutex.Unlock()
 	mgr.authenticators = make([]Authenticator, 0)
 }
 
 // Authenticate authenticates the connection with the startup message.
 func (mgr *AuthManager) Authenticate(conn Conn) (bool, error) {
-	if len(mgr.authenticators) == 0 {
+	mgr.mutex.RLock()
+	authenticators := make([]Authenticator, len(mgr.authenticators))
+	copy(authenticators, mgr.authenticators)
+	mgr.mutex.RUnlock()
+	if len(authenticators) == 0 {
 		return true, nil
 	}
-	for _, authenticator := range mgr.authenticators {
+	for _, authenticator := range authenticators {
 		ok, err := authenticator.Authenticate(conn)
 		if !ok {
 			return false, err
@@ -53,6 +67,8 @@ func (mgr *AuthManager) Authenticate(conn Conn) (bool, error) {
 
 // HasClearTextPasswordAuthenticator returns true if the manager has the clear text password authenticator.
 func (mgr *AuthManager) HasClearTextPasswordAuthenticator(username string, password string) bool {
+	mgr.mutex.RLock()
+	defer mgr.mutex.RUnlock()
 	for _, authenticator := range mgr.authenticators {
 		clearTextAuthenticator, ok := authenticator.(*ClearTextPasswordAuthenticator)
 		if !ok {
